@@ -1,20 +1,54 @@
+//! Registry of the per-property harness modules.  Every module offers
+//!   gen(out, sub): generate cases, call the real code, emit events
+//!   replay(run, sub): re-execute the real code on the inputs recorded in `run` (events of one case)
 use crate::out::Out;
 use serde_json::Value;
 
-pub mod c01;
-
-pub fn gen(prop: &str, out: &mut Out) -> bool {
-    match prop {
-        "C01" => c01::gen(out),
-        _ => return false,
-    }
-    true
+macro_rules! props {
+    ($($id:literal => $m:ident),* $(,)?) => {
+        $(pub mod $m;)*
+        pub fn gen(prop: &str, out: &mut Out) -> bool {
+            let (p, sub) = match prop.split_once(':') { Some((a, b)) => (a, b), None => (prop, "") };
+            match p {
+                $($id => $m::gen(out, sub),)*
+                _ => return false,
+            }
+            true
+        }
+        pub fn replay(prop: &str, run: &[Value]) -> Option<Vec<Value>> {
+            let (p, sub) = match prop.split_once(':') { Some((a, b)) => (a, b), None => (prop, "") };
+            Some(match p {
+                $($id => $m::replay(run, sub),)*
+                _ => return None,
+            })
+        }
+    };
 }
 
-/// Re-execute the real code on the inputs recorded in `run` (the events of one case).
-pub fn replay(prop: &str, run: &[Value]) -> Option<Vec<Value>> {
-    Some(match prop {
-        "C01" => run.iter().map(c01::exec).collect(),
-        _ => return None,
-    })
+props! {
+    "C01" => c01,
+    "C02" => c02,
+    "C03" => c03,
+    "C04" => c04,
+    "C05" => c05,
+    "C06" => c06,
+    "C07" => c07,
+    "C08" => c08,
+    "C09" => c09,
+    "C10" => c10,
+    "C11" => c11,
+    "C12" => c12,
+    "C13" => c13,
+    "C14" => c14,
+    "C15" => c15,
+    "C16" => c16,
+    "C17" => c17,
+    "C18" => c18,
+    "C19" => c19,
+    "C20" => c20,
+    "C21" => c21,
+    "C22" => c22,
+    "C23" => c23,
+    "C24" => c24,
+    "C25" => c25,
 }
